@@ -23,7 +23,7 @@ PROPS = {
     "C03": P(["C4E.Props.C03"], ["C4E.Props.C03"],
              [("distr", 250, 4000), ("distrfaults", 120, 2000)],
              {"d.bb": ["states", "main", "inv"], "d.setparams": "*", "d.validate": "*"},
-             assumptions=["multi-denomination lift of the single-denomination core theorem is by correspondence, not proved",
+             assumptions=["the whole-block theorem is proved on the single-denomination core; on the code-tied multi-denomination model the per-step facts are proved (faithful_sub_step, payoutLoop_keeps_books) and every generated block is compared with the core by the bridge; their composition over the whole loop is not proved",
                           "account ids in generated configurations are ASCII (Lean String order = Go byte order)"]),
     "C04": P(["C4E.Props.C04"], ["C4E.Props.C04"],
              [("distr", 300, 4000)],
